@@ -15,6 +15,7 @@ Import ListNotations.
 From TI Require Import gen.Consts model.KittyChunks proofs.KittyChunksProofs.
 From TI Require gen.ChunksSrc proofs.ChunksSrcTie.
 From TI Require Import model.GfxPlan proofs.GfxPlanProofs.
+From TI Require Import model.GfxFrames proofs.GfxFramesProofs model.B64Blocks proofs.B64Proofs.
 
 (** what the terminal reassembles from the chunks is the payload *)
 Theorem C03_chunks_concat :
@@ -336,3 +337,145 @@ Theorem C03_source_get_chunks :
     TI.gen.ChunksSrc.src_get_chunks size payload = chunks size payload.
 Proof. exact TI.proofs.ChunksSrcTie.get_chunks_is_source. Qed.
 Print Assumptions C03_source_get_chunks.
+
+(** * Round 4 (b) — WHICH FRAME is transmitted, over histories that move the PIL image.
+
+    [frame_of k] is frame k of the source (any type of images), [run] (model/GfxFrames.v)
+    executes a history of  image.seek(n) | the shared PIL object left on frame k by someone
+    else | an ImageIterator yielding frames 0..k and closed early | an exhausted
+    ImageIterator | a render,  on an instance that wraps a PIL image (shared object) or was
+    made from a file (re-opened per render); [spec_frames] lists, for every render of the
+    history, [image.tell()] at that moment — a function of the seek / iterator operations
+    alone. *)
+
+(** every render of EVERY history carries the pixels of frame [image.tell()] — for both
+    kinds of source and any initial position — and [tell] is what the history says *)
+Theorem C03_frames_every_history :
+  forall (Img : Type) (frame_of : nat -> Img) kind init h,
+    snd (run frame_of always_seek kind (init_state init) h)
+      = map frame_of (spec_frames init [] h)
+    /\ fs_seek (fst (run frame_of always_seek kind (init_state init) h)) = spec_tell init h.
+Proof. exact frames_main. Qed.
+Print Assumptions C03_frames_every_history.
+
+(** ... through the wire: what the terminal decodes (and decompresses) from the
+    transmission of each render is the raw data ([raw]: Pillow's conversion and resize to
+    the transmitted resolution) of frame [tell] of the source *)
+Theorem C03_frames_transmit :
+  forall (B C Img : Type) (b64 : list B -> list C) (unb64 : list C -> list B)
+         (zl : nat -> list B -> list B) (unzl : list B -> list B),
+    (forall x, unb64 (b64 x) = x) -> (forall l x, unzl (zl l x) = x) ->
+    forall (frame_of : nat -> Img) (raw : Img -> list B)
+           kind init h size m fmt width height rw rh z level, 0 < size ->
+      map (fun im => receive unb64 unzl
+                       (transmit b64 zl size (kitty_ctrl m fmt width height rw rh z level) level (raw im)))
+          (snd (run frame_of always_seek kind (init_state init) h))
+      = map (fun k => raw (frame_of k)) (spec_frames init [] h).
+Proof. exact frames_transmit. Qed.
+Print Assumptions C03_frames_transmit.
+
+(** the statement is FALSE of a render that seeks the PIL image only when the wanted frame
+    is not 0 ("a newly opened image is on its first frame"): with a shared PIL object left
+    on frame k by its owner, or by an iterator closed early followed by seek(0) ... *)
+Theorem C03_frames_skip_zero_refuted :
+  forall (Img : Type) (frame_of : nat -> Img) k, frame_of k <> frame_of 0 ->
+    (let h := [FForeign k; FRender] in
+     snd (run frame_of skip_zero SrcPil (init_state 0) h) <> map frame_of (spec_frames 0 [] h))
+    /\ (let h := [FIter k; FSeek 0; FRender] in
+        snd (run frame_of skip_zero SrcPil (init_state 0) h) <> map frame_of (spec_frames 0 [] h)).
+Proof. exact skip_zero_refuted_both. Qed.
+Print Assumptions C03_frames_skip_zero_refuted.
+
+(** ... while for file sources the two designs transmit the same frames in every history:
+    only histories over a SHARED PIL object separate them *)
+Theorem C03_frames_skip_zero_same_on_files :
+  forall (Img : Type) (frame_of : nat -> Img) h s,
+    snd (run frame_of skip_zero SrcFile s h) = snd (run frame_of always_seek SrcFile s h)
+    /\ fs_seek (fst (run frame_of skip_zero SrcFile s h))
+       = fs_seek (fst (run frame_of always_seek SrcFile s h))
+    /\ fs_pil (fst (run frame_of skip_zero SrcFile s h))
+       = fs_pil (fst (run frame_of always_seek SrcFile s h)).
+Proof. exact skip_zero_file_ok. Qed.
+Print Assumptions C03_frames_skip_zero_same_on_files.
+
+(** * Round 4 (b) — the payload of one command is ONE well-formed base64 text, whatever its
+    size.
+
+    [b64_wf is_pad l] (model/B64Blocks.v): the length of [l] is a multiple of 4 and padding
+    characters occur only at the very end (at most two).  It is a hypothesis on the ENCODER
+    ([b64], together with [unb64 (b64 x) = x]); the older [length (b64 x) mod 4 = 0] follows
+    from it. *)
+
+(** iterm2: the payload of each File= command is well-formed, decodes to the image data,
+    and size= is the decoded length *)
+Theorem C03_iterm2_payload_wf :
+  forall (B C : Type) (is_pad : C -> bool) (b64 : list B -> list C) (unb64 : list C -> list B),
+    (forall x, unb64 (b64 x) = x) -> (forall x, b64_wf is_pad (b64 x) = true) ->
+    forall b cols rows konsole (data : list B),
+      let (h, p) := iterm2_emit b64 b cols rows konsole data in
+      b64_wf is_pad p = true /\ unb64 p = data
+      /\ exists rest, h = VLit "size="%string :: VNum (length (unb64 p)) :: rest.
+Proof. exact iterm2_payload_wf. Qed.
+Print Assumptions C03_iterm2_payload_wf.
+
+(** kitty: what the terminal reassembles from the chunks of one transmission is well-formed
+    and decodes (+ decompresses iff o=z) to the data *)
+Theorem C03_kitty_payload_wf :
+  forall (B C : Type) (is_pad : C -> bool) (b64 : list B -> list C) (unb64 : list C -> list B)
+         (zl : nat -> list B -> list B) (unzl : list B -> list B),
+    (forall x, unb64 (b64 x) = x) -> (forall l x, unzl (zl l x) = x) ->
+    (forall x, b64_wf is_pad (b64 x) = true) ->
+    forall size m fmt width height rw rh z level data, 0 < size ->
+      let tx := transmit b64 zl size (kitty_ctrl m fmt width height rw rh z level) level data in
+      b64_wf is_pad (concat (map (@item_data C) tx)) = true
+      /\ receive unb64 unzl tx = data.
+Proof. exact kitty_payload_wf. Qed.
+Print Assumptions C03_kitty_payload_wf.
+
+(** the hypotheses are satisfiable by the real thing: RFC 4648 on bytes, with a STRICT
+    decoder (padding accepted in the last group of four only) *)
+Theorem C03_b64_rfc4648 :
+  (forall x, Forall (fun b => b < 256) x -> dec (enc x) = Some x)
+  /\ (forall x, Forall (fun b => b < 256) x -> b64_wf is_pad64 (enc x) = true)
+  /\ exists (is_pad : nat -> bool) (b64 : list Byte.byte -> list nat) unb64,
+       (forall x, unb64 (b64 x) = x) /\ (forall x, b64_wf is_pad (b64 x) = true).
+Proof. exact b64_rfc4648_all. Qed.
+Print Assumptions C03_b64_rfc4648.
+
+(** encoding a stream block by block — "".join(b64encode(block) for block in blocks of n) —
+    is the same encoder when n is a multiple of 3 ... *)
+Theorem C03_encode_blocks_mult3 :
+  forall n l, 0 < n -> n mod 3 = 0 -> encode_blocks enc n l = enc l.
+Proof. exact encode_blocks_mult3. Qed.
+Print Assumptions C03_encode_blocks_mult3.
+
+(** ... and for EVERY other block size it violates the encoder hypothesis as soon as the
+    data is longer than one block — for any encoder of the RFC 4648 shape (padding at the
+    end of a text whose length is not a multiple of 3, none at the start of a non-empty one) *)
+Theorem C03_encode_blocks_breaks_wf :
+  forall (B C : Type) (is_pad : C -> bool) (encf : list B -> list C),
+    (forall x, length x mod 3 <> 0 -> exists body p, encf x = body ++ [p] /\ is_pad p = true) ->
+    (forall x, x <> [] -> exists c r, encf x = c :: r /\ is_pad c = false) ->
+    forall n (l : list B), n mod 3 <> 0 -> n < length l ->
+      b64_wf is_pad (encode_blocks encf n l) = false.
+Proof. exact encode_blocks_breaks_wf. Qed.
+Print Assumptions C03_encode_blocks_breaks_wf.
+
+(** so block-wise RFC 4648 with such a block size is NOT an encoder the C03 theorems speak
+    of; with 1 MiB blocks every payload of more than 2^20 bytes is ill-formed *)
+Theorem C03_blockwise_excluded :
+  (forall n, n mod 3 <> 0 -> ~ (forall x, b64_wf is_pad64 (encode_blocks enc_b n x) = true))
+  /\ (forall l : list Byte.byte, 2 ^ 20 < length l ->
+        b64_wf is_pad64 (encode_blocks enc_b (2 ^ 20) l) = false)
+  /\ (forall k l, 0 < k -> encode_blocks enc_b (3 * k) l = enc_b l).
+Proof. exact blockwise_excluded_all. Qed.
+Print Assumptions C03_blockwise_excluded.
+
+(** the shape the correspondence measures on a real payload (non-padding characters followed
+    by k padding characters) is well-formed iff the length is a multiple of 4 and k <= 2 *)
+Theorem C03_wf_of_shape :
+  forall (C : Type) (is_pad : C -> bool) body p k,
+    forallb (fun c => negb (is_pad c)) body = true -> is_pad p = true ->
+    b64_wf is_pad (body ++ repeat p k) = ((length body + k) mod 4 =? 0) && (k <=? 2).
+Proof. exact wf_of_shape. Qed.
+Print Assumptions C03_wf_of_shape.
